@@ -175,14 +175,131 @@ class SymbolicUniform:
         return not self._below(c)
 
     def _bad(self, *a, **k):
-        raise UnsupportedRandomUse("operation other than an order comparison on random.random()")
+        raise UnsupportedRandomUse("unsupported operation on random.random() (supported: order comparisons, "
+                                   "affine arithmetic with reals, int()/floor of an affine image)")
 
-    __eq__ = __ne__ = __hash__ = __float__ = __int__ = __bool__ = __index__ = _bad
-    __add__ = __radd__ = __sub__ = __rsub__ = __mul__ = __rmul__ = __truediv__ = __rtruediv__ = _bad
-    __pow__ = __rpow__ = __neg__ = __abs__ = __floordiv__ = __mod__ = __round__ = _bad
+    __eq__ = __ne__ = __hash__ = __float__ = __bool__ = __index__ = _bad
+    __rtruediv__ = __pow__ = __rpow__ = __abs__ = __floordiv__ = __mod__ = __round__ = _bad
+
+    # affine images a*U + b (e.g. int(random.random() * n))
+    def __mul__(self, c):
+        return AffineUniform(self, _frac(c), Fraction(0))
+
+    __rmul__ = __mul__
+
+    def __add__(self, c):
+        return AffineUniform(self, Fraction(1), _frac(c))
+
+    __radd__ = __add__
+
+    def __sub__(self, c):
+        return AffineUniform(self, Fraction(1), -_frac(c))
+
+    def __rsub__(self, c):
+        return AffineUniform(self, Fraction(-1), _frac(c))
+
+    def __neg__(self):
+        return AffineUniform(self, Fraction(-1), Fraction(0))
+
+    def __truediv__(self, c):
+        return AffineUniform(self, 1 / _frac(c), Fraction(0))
+
+    def __int__(self):
+        return int(AffineUniform(self, Fraction(1), Fraction(0)))
 
     def __repr__(self):
         return f"U[{self.lo},{self.hi})"
+
+
+class AffineUniform:
+    """a*U + b for a symbolic uniform U: supports further affine arithmetic, comparisons and int()/floor."""
+    __array_ufunc__ = None
+    __slots__ = ("u", "a", "b")
+
+    def __init__(self, u, a, b):
+        self.u, self.a, self.b = u, a, b
+
+    def _aff(self, a2, b2):
+        return AffineUniform(self.u, self.a * a2, self.b * a2 + b2)
+
+    def __mul__(self, c):
+        return self._aff(_frac(c), Fraction(0))
+
+    __rmul__ = __mul__
+
+    def __truediv__(self, c):
+        return self._aff(1 / _frac(c), Fraction(0))
+
+    def __add__(self, c):
+        return self._aff(Fraction(1), _frac(c))
+
+    __radd__ = __add__
+
+    def __sub__(self, c):
+        return self._aff(Fraction(1), -_frac(c))
+
+    def __rsub__(self, c):
+        return self._aff(Fraction(-1), _frac(c))
+
+    def __neg__(self):
+        return self._aff(Fraction(-1), Fraction(0))
+
+    def _cmp(self, c, below):
+        # a*U + b < c  <=>  U < (c-b)/a (a > 0)  or  U > (c-b)/a (a < 0)
+        if self.a == 0:
+            return (self.b < _frac(c)) if below else (self.b > _frac(c))
+        t = (_frac(c) - self.b) / self.a
+        if (self.a > 0) == below:
+            return self.u._below(t)
+        return not self.u._below(t)
+
+    def __lt__(self, c):
+        return self._cmp(c, True)
+
+    __le__ = __lt__
+
+    def __gt__(self, c):
+        return self._cmp(c, False)
+
+    __ge__ = __gt__
+
+    def _floor(self):
+        import math
+        u = self.u
+        if self.a == 0:
+            return math.floor(self.b)
+        ends = sorted((self.a * u.lo + self.b, self.a * u.hi + self.b))
+        k0, k1 = math.floor(ends[0]), math.ceil(ends[1])
+        vals = list(range(k0, k1))
+        width = u.hi - u.lo
+        pieces = []
+        for k in vals:
+            # U-interval on which floor(a*U+b) == k
+            x0, x1 = (Fraction(k) - self.b) / self.a, (Fraction(k + 1) - self.b) / self.a
+            lo_, hi_ = max(min(x0, x1), u.lo), min(max(x0, x1), u.hi)
+            if hi_ > lo_:
+                pieces.append((k, lo_, hi_))
+        if not pieces:
+            raise UnsupportedRandomUse("empty image of an affine uniform")
+        j = u.run.choose(len(pieces), [(h - l) / width for _, l, h in pieces], "floor(aU+b)")
+        k, u.lo, u.hi = pieces[j]
+        u.thresholds.append(Fraction(k))
+        return k
+
+    def __int__(self):
+        v = self._floor() if True else 0
+        # int() truncates towards zero; for negative non-integral values floor differs by one
+        if v < 0:
+            raise UnsupportedRandomUse("int() of a negative affine uniform")
+        return v
+
+    __floor__ = _floor
+    __trunc__ = __int__
+
+    def _bad(self, *a, **k):
+        raise UnsupportedRandomUse("unsupported operation on an affine image of random.random()")
+
+    __eq__ = __ne__ = __hash__ = __float__ = __bool__ = __index__ = __pow__ = __abs__ = __mod__ = __round__ = _bad
 
 
 # ---------------------------------------------------------------- dispatchers
